@@ -49,7 +49,7 @@ BB_NOTE = ["black-box: uses only BudgetEnforcer::new / observe / finalize, concr
 BB_STREAMS = {"keyseq": "{? [a] : <<, other: x} (8 events, AllContent)", "keymap": "{? {k: x} : v, <<: {}} (10 events, AllContent)",
               "anchors": "{a: &1 [&2 x], b: *1, \"<<\": *1} (11 events, AllContent)", "twodocs": "two documents re-using anchor id 1 (10 events, PerDocument)",
               "abandoned": "document abandoned with two containers open, boundary, full document (10 events, PerDocument)", "allcontent": "two documents (10 events, AllContent)"}
-BB_THOROUGH = ("keymap_within", "anchors_within", "abandoned_within", "abandoned_nodelimit", "twodocs_within")
+BB_THOROUGH = ("keymap_within", "anchors_within", "abandoned_within", "abandoned_nodelimit", "abandoned_depthlimit", "twodocs_within", "anchors_anchorlimit", "anchors_aliaslimit", "twodocs_eventlimit", "twodocs_anchorlimit")
 for _n in ("keyseq_within", "keyseq_mergelimit", "keymap_within", "keymap_mergelimit", "anchors_within", "anchors_anchorlimit", "anchors_aliaslimit",
            "twodocs_within", "twodocs_eventlimit", "twodocs_anchorlimit", "abandoned_within", "abandoned_depthlimit", "abandoned_nodelimit", "allcontent_within"):
     _stream, _mode = _n.split("_")
@@ -190,6 +190,13 @@ H("c16_location_from_span", "location", ["C16", "C01"], expect_s=30, functions=[
 H("c16_locations_pair", "location", ["C16"], expect_s=30, functions=["location::Locations::same", "location::Locations::primary_location"],
   claim="primary location is the use-site unless unknown, then the definition-site; `same` yields both equal", bound="all line/column values (u32)")
 
+H("c16_scan_error_location", "de_error", ["C16"], expect_s=120, timeout=1200, functions=["de_error::Error::from_scan_error"],
+  claim="a scanner error is located at the parser's mark: same line, 1-based column, CHARACTER offset (not the byte offset), length 1",
+  bound="mark index/line/column free below 2^32-1, optional byte offset free (>= index); concrete message text", assumes=[STD_STUBS])
+H("c16_reference_location_during_replay", "live_events", ["C16"], expect_s=60, timeout=900, functions=["live_events::LiveEvents::reference_location"],
+  claim="while a replay frame is active the use-site location is the alias token's for EVERY replay position; otherwise the lookahead event's, else the last location",
+  bound="replay index free 64-bit, anchor id free, with/without lookahead; LiveEvents built by struct literal (one-shot scripted parser hook, empty)")
+
 # --------------------------------------------------------------------------------------------
 # C04 / C01 event-buffer kernels (src/de.rs)
 # --------------------------------------------------------------------------------------------
@@ -197,6 +204,10 @@ for _n, _N, _tier, _exp in (("c04_skip_len_6", 6, "quick", 60), ("c04_skip_len_8
     H(_n, "de", ["C04", "C01"], tier=_tier, expect_s=_exp, timeout=max(900, 4 * _exp), functions=["de::skip_one_node_len"],
       claim="for every event buffer and start index: a well-formed node (strict reference scanner) is skipped exactly; any returned length stays inside the buffer; no panic / index error on malformed buffers",
       bound="all buffers of %d events over {scalar, seq start/end, map start/end, taken} x every start index" % _N)
+
+H("c04_scalar_key_identity", "de", ["C04"], expect_s=120, timeout=1200, functions=["de::KeyNode::fingerprint", "de::KeyFingerprint (PartialEq)"],
+  claim="two scalar keys have equal fingerprints iff they have the same text and the same tag - quoting style and anchor id never matter",
+  bound="texts 'k'/'j', tags {none, !!str, !!int}^2, all 5x5 style pairs, anchor ids free")
 
 # base64 (src/base64.rs): one final quantum per concrete padding shape
 for _n, _shape, _tier, _exp in (("c06_base64_pad2", "XY== (2 symbolic characters)", "thorough", 1800), ("c06_base64_pad1", "XYZ= (3 symbolic characters)", "thorough", 900), ("c06_base64_pad0", "XYZW (4 symbolic characters)", "thorough", 1200)):
@@ -226,8 +237,8 @@ for _n, _N, _tier, _exp in (("c12_wordlike_4", 4, "quick", 300), ("c12_wordlike_
 # --------------------------------------------------------------------------------------------
 # C12 quoted-style emitters (src/ser.rs)
 # --------------------------------------------------------------------------------------------
-for _n, _N, _tier, _exp in (("c12_write_quoted_1", 1, "quick", 200), ("c12_write_quoted_2", 2, "quick", 600), ("c12_write_quoted_3", 3, "thorough", 2400)):
-    H(_n, "ser", ["C12"], tier=_tier, expect_s=_exp, timeout=max(1500, 3 * _exp), mem_gb=20, weight=2, functions=["ser::YamlSerializer::write_quoted"],
+for _n, _N, _tier, _exp in (("c12_write_quoted_1", 1, "thorough", 3600), ("c12_write_quoted_2", 2, "thorough", 7200)):
+    H(_n, "ser", ["C12"], tier=_tier, expect_s=_exp, timeout=2 * _exp, mem_gb=30, weight=4, functions=["ser::YamlSerializer::write_quoted"],
       claim="the double-quoted form of s, read by a reference reader of YAML double-quoted scalars (escape table \\\\ \\\" \\0 \\a \\b \\t \\n \\v \\f \\r \\e \\N \\L \\P \\xHH \\uHHHH; raw controls, line breaks and BOM not allowed), yields exactly s",
       bound="every valid-UTF-8 string of exactly %d bytes" % _N, assumes=[STD_STUBS, E2E])
 
